@@ -99,6 +99,8 @@ pub fn all() -> Vec<PropSpec> {
             id,
             legs: if id == "C11" {
                 vec![Leg::Sched { quick: 320_000, thorough: 6_000_000 }, Leg::Miri { quick_seeds: 24, thorough_seeds: 200 }]
+            } else if id == "C12" {
+                vec![Leg::Sched { quick: 200_000, thorough: 4_000_000 }]
             } else {
                 vec![Leg::Sched { quick: 320_000, thorough: 6_000_000 }]
             },
